@@ -10,7 +10,13 @@ package db
 // (raw rosmar collection, no interception), gateway Put / delete / read (on-demand import) and
 // metadata-only rewrites (ResyncDocument after a sync-function change). Races inside a gateway operation
 // are produced by the fault store's hook: an external write, a feed delivery or a read lands immediately
-// before the operation's k-th compare-and-swap write of the document.
+// before the operation's k-th storage operation - reads included, so an external write can fall between the
+// first read and the re-read of an on-demand import as well as into its read -> compare-and-swap window.
+// Half of the cases configure a user xattr key: the other application then also changes the user xattr alone
+// (a metadata-only import: same revision, channels recomputed) or body and user xattr in one mutation (a new
+// revision like any body change). The sync function names a channel after the body and one after the user
+// xattr, so the stored metadata shows what each import was computed from; half of the gateway reads go
+// through the revision cache (GetRev), which is what revision-based clients are served from.
 //
 // Oracle: every gateway operation runs under a marked context; its storage trace is linearised into the
 // sequence of committed mutations of the document (external writes at the hook position, gateway CAS writes
@@ -20,7 +26,9 @@ package db
 //   - a gateway revision write only when none is pending (else: external write lost),
 //   - no pending change left after an undisturbed on-demand operation or delivery of the current event,
 //   - each import = exactly one new revision, child of the previous current revision, one higher sequence,
-//     carrying the bucket's body / tombstone state; nothing else changes,
+//     carrying the bucket's body / tombstone state; nothing else changes; a user-xattr-only import keeps
+//     the revision; the body / user-xattr channels are those of the body / xattr the commit saw,
+//   - a read answers with the current revision and the latest body whenever nothing is pending after it,
 // and at quiescence: body = latest write, re-delivering every event and re-reading changes nothing.
 //
 // TestVerif_C09_AutoImport: the real import feed on; only the end state is checked.
@@ -73,6 +81,7 @@ type vfC09Model struct {
 	bBody    string
 	bX       string // bucket: value of the user xattr ("" = none); only with the user-xattr dimension
 	gwX      string // user xattr value the gateway's metadata was last computed from
+	metaBody string // body the gateway's metadata (channels) of the current revision was last computed from
 	extSince int    // external writes since the last import opportunity consumed them (statistics)
 }
 
@@ -103,7 +112,7 @@ func (m *vfC09Model) extSet(body string) {
 		// re-creating a deleted document drops the tombstone's system xattrs (bucket semantics): the
 		// gateway's history of the document is gone and restarts with the next import
 		m.known, m.gen, m.curRev, m.revCount, m.gwBody, m.gwDel = false, 0, "", 0, "", false
-		m.bX, m.gwX = "", ""
+		m.bX, m.gwX, m.metaBody = "", "", ""
 	}
 	m.bState, m.bBody = vfC09Live, body
 }
@@ -122,11 +131,11 @@ func (m *vfC09Model) newRevision() {
 
 // applyImport: body change => new revision; user-xattr-only change => same revision, metadata recomputed.
 func (m *vfC09Model) applyImport() (newRevision bool) {
+	// either way the sync function runs on the bucket's body and user xattr
+	defer func() { m.gwX, m.metaBody = m.bX, m.bBody }()
 	if !m.bodyDirty() {
-		m.gwX = m.bX
 		return false
 	}
-	defer func() { m.gwX = m.bX }()
 	m.newRevision()
 	newRevision = true
 	if m.bState == vfC09Live {
@@ -146,14 +155,14 @@ func (m *vfC09Model) applyOwn(body string, del bool) {
 		if m.bState != vfC09Live {
 			m.bX = "" // re-creating a deleted document starts without user xattrs
 		}
-		m.gwX = m.bX
+		m.gwX, m.metaBody = m.bX, body
 		m.bState, m.bBody, m.gwBody, m.gwDel = vfC09Live, body, body, false
 	}
 }
 
 func (m *vfC09Model) String() string {
 	b := []string{"missing", "live", "tomb"}[m.bState]
-	return fmt.Sprintf("{known=%v gen=%d rev=%s revs=%d seq=%d gw=%q gwDel=%v gwXattr=%q bucket=%s %q xattr=%q dirty=%v}", m.known, m.gen, m.curRev, m.revCount, m.seq, m.gwBody, m.gwDel, m.gwX, b, m.bBody, m.bX, m.dirty())
+	return fmt.Sprintf("{known=%v gen=%d rev=%s revs=%d seq=%d gw=%q gwDel=%v gwXattr=%q metaBody=%q bucket=%s %q xattr=%q dirty=%v}", m.known, m.gen, m.curRev, m.revCount, m.seq, m.gwBody, m.gwDel, m.gwX, m.metaBody, b, m.bBody, m.bX, m.dirty())
 }
 
 // vfC09Win is an action that lands inside a gateway operation's read -> CAS-write window.
@@ -244,6 +253,18 @@ type vfC09Case struct {
 }
 
 func vfC09Body(n int) string { return `{"x":` + strconv.Itoa(n) + `}` }
+
+// vfC09SyncFn routes every live revision into a channel named after its body ("b<x>") and, when the database
+// has a user xattr key and the document carries that xattr, into the channel the xattr names ("u<n>"): the
+// gateway metadata of the current revision then shows which body / user xattr it was computed from. n > 0
+// adds the marker channel of the n-th metadata-only rewrite.
+func vfC09SyncFn(n int) string {
+	fn := `function(doc, oldDoc, meta) { `
+	if n > 0 {
+		fn += fmt.Sprintf(`channel("ch%d"); `, n)
+	}
+	return fn + `if (!doc._deleted) { channel("b" + doc.x); var u = meta.xattrs.` + vfC09UserXattrKey + `; if (u) { channel(u); } } }`
+}
 
 func (c *vfC09Case) render() string { return strings.Join(c.ops, "; ") }
 
@@ -474,7 +495,36 @@ type vfC09Result struct {
 	err     error
 	body    string
 	del     bool
-	readDoc *Document
+	// reads
+	viaRev   bool // read through the revision cache (GetRev of the active revision) instead of GetDocument
+	readRev  string
+	readBody []byte
+}
+
+// doRead is a gateway read of the current revision: GetDocument (the document as the bucket holds it, after an
+// on-demand import) or GetRev without a revision (the same, served through the revision cache).
+func (c *vfC09Case) doRead(ctx context.Context, key string, viaRev bool) vfC09Result {
+	if viaRev {
+		r, err := c.env.Coll.GetRev(ctx, key, "", false, nil)
+		if err != nil {
+			return vfC09Result{err: err, viaRev: true}
+		}
+		return vfC09Result{viaRev: true, readRev: r.RevID, readBody: r.BodyBytes}
+	}
+	doc, err := c.env.Coll.GetDocument(ctx, key, DocUnmarshalAll)
+	if err != nil {
+		return vfC09Result{err: err}
+	}
+	bb, _ := doc.BodyBytes(ctx)
+	return vfC09Result{readRev: doc.GetRevTreeID(), readBody: bb}
+}
+
+func vfC09SameJSON(a []byte, b string) bool {
+	var x, y any
+	if base.JSONUnmarshal(a, &x) != nil || base.JSONUnmarshal([]byte(b), &y) != nil {
+		return false
+	}
+	return fmt.Sprint(x) == fmt.Sprint(y)
 }
 
 // gateway runs one gateway-side operation under the "top" marker with an optional window action, then
@@ -605,7 +655,9 @@ func (c *vfC09Case) gateway(kind string, d int, win *vfC09Win, desc string, exec
 		case "commit":
 			if e.meta {
 				if kind == "rewrite" && e.label == "top" && vfC09IsWrite(e.typ) {
-					m.gwX = m.bX // resync recomputes the metadata from the current user xattr
+					// resync recomputes the metadata of the current revision from the body and user xattr the
+					// bucket holds (also when that body is an external write still waiting for its import)
+					m.gwX, m.metaBody = m.bX, m.bBody
 				}
 				continue
 			}
@@ -665,25 +717,27 @@ func (c *vfC09Case) gateway(kind string, d int, win *vfC09Win, desc string, exec
 		}
 	}
 	// results
+	// A read answers with the state it found or imported. Undisturbed, that is the current revision with the
+	// latest body. Disturbed by a window action it still is whenever nothing is pending afterwards: every
+	// external write of the window was then followed by the import (or own-write recognition) the read
+	// returned from, so an answer with an older body means the import was built from a superseded read.
+	if kind == "read" && (undisturbed || !m.dirty()) && !(res.viaRev && m.gwDel) {
+		if m.known {
+			if res.err != nil {
+				c.fail("%s: document is known to the gateway (%s) but the read failed: %v", opStr, m.String(), res.err)
+			}
+			if res.readRev != m.curRev {
+				c.fail("%s: read returned revision %s, current revision is %s", opStr, res.readRev, m.curRev)
+			}
+			if !m.gwDel && !vfC09SameJSON(res.readBody, m.bBody) {
+				c.fail("%s: read returned body %s, the latest write is %s (model %s)", opStr, res.readBody, m.bBody, m.String())
+			}
+		} else if res.err == nil && undisturbed {
+			c.fail("%s: nothing importable in the bucket (%s) but the read returned revision %s", opStr, m.String(), res.readRev)
+		}
+	}
 	if undisturbed {
 		switch kind {
-		case "read":
-			if m.known {
-				if res.err != nil {
-					c.fail("%s: document is known to the gateway (%s) but the read failed: %v", opStr, m.String(), res.err)
-				}
-				if res.readDoc.GetRevTreeID() != m.curRev {
-					c.fail("%s: read returned revision %s, current revision is %s", opStr, res.readDoc.GetRevTreeID(), m.curRev)
-				}
-				if !m.gwDel {
-					bb, _ := res.readDoc.BodyBytes(c.env.Ctx)
-					if string(bb) != m.bBody {
-						c.fail("%s: read returned body %s, the latest write is %s", opStr, bb, m.bBody)
-					}
-				}
-			} else if res.err == nil {
-				c.fail("%s: nothing importable in the bucket (%s) but the read returned revision %s", opStr, m.String(), res.readDoc.GetRevTreeID())
-			}
 		case "put", "del":
 			if res.acked && res.rev != m.curRev {
 				c.fail("%s: acknowledged revision %s is not the current revision %s", opStr, res.rev, m.curRev)
@@ -692,6 +746,29 @@ func (c *vfC09Case) gateway(kind string, d int, win *vfC09Win, desc string, exec
 	}
 	if c.fired && !strings.HasPrefix(c.winNote, "none") {
 		c.classes["window:"+c.win.kind+"-in-"+kind] = true
+		// where the window action landed: before a read-type storage operation of the action, and in particular
+		// between two reads of the document by one gateway read (first read -> re-read of the on-demand import)
+		readsBefore := 0
+		for _, op := range trace {
+			if op.Label != "top" {
+				continue
+			}
+			if op.Index == c.firedIndex {
+				if !vs.IsWrite(op.Type) {
+					c.classes["window-before-a-read-operation"] = true
+					if op.Key == m.key && readsBefore > 0 && strings.HasPrefix(c.win.kind, "ext") {
+						c.classes["external-write-between-two-reads-of-one-action"] = true
+						if kind == "read" {
+							c.classes["external-write-between-read-and-re-read-of-a-gateway-read"] = true
+						}
+					}
+				}
+				break
+			}
+			if op.Key == m.key && !vs.IsWrite(op.Type) {
+				readsBefore++
+			}
+		}
 		if strings.HasPrefix(c.win.kind, "ext") && (kind == "put" || kind == "del") {
 			c.nontriv = true
 			c.classes["nontrivial:external-write-in-gateway-write-window"] = true
@@ -743,6 +820,33 @@ func (c *vfC09Case) checkObserved(opStr string, pre, m *vfC09Model, o vfC09Obs, 
 	if info.Deleted != m.gwDel || deleted != m.gwDel {
 		c.fail("%s: current revision %s deleted=%v (document flag %v), the latest write makes it deleted=%v; model %s", opStr, cur, info.Deleted, deleted, m.gwDel, m.String())
 	}
+	// the metadata of the current revision was computed from the latest body (and, with a user xattr key, from
+	// the user xattr the last import / gateway write saw): the sync function names a channel after each
+	if !m.gwDel {
+		var gotB, gotU []string
+		for _, name := range vfSortedKeys(o.sd.Channels) {
+			if o.sd.Channels[name] != nil {
+				continue // removed from the channel
+			}
+			switch name[0] {
+			case 'b':
+				gotB = append(gotB, name)
+			case 'u':
+				gotU = append(gotU, name)
+			}
+		}
+		wantB := "b" + strings.TrimSuffix(strings.TrimPrefix(m.metaBody, `{"x":`), "}")
+		if len(gotB) != 1 || gotB[0] != wantB {
+			c.fail("%s: current revision %s is in body channel(s) %v; the import / gateway write / rewrite that last computed its metadata saw the body %s, which gives %s - the metadata was computed from a superseded body (model before %s, after %s)", opStr, cur, gotB, m.metaBody, wantB, pre.String(), m.String())
+		}
+		var wantU []string
+		if c.uxk && m.gwX != "" {
+			wantU = []string{strings.Trim(m.gwX, `"`)}
+		}
+		if strings.Join(gotU, ",") != strings.Join(wantU, ",") {
+			c.fail("%s: current revision %s is in user-xattr channel(s) %v; the user xattr its metadata was last computed from (%s) gives %v (model before %s, after %s)", opStr, cur, gotU, m.gwX, wantU, pre.String(), m.String())
+		}
+	}
 	// the new revisions are a chain on top of the previous current revision
 	if newRevs > 0 {
 		p := cur
@@ -785,14 +889,17 @@ func (c *vfC09Case) checkObserved(opStr string, pre, m *vfC09Model, o vfC09Obs, 
 
 func (c *vfC09Case) drawDoc(rt *rapid.T) int { return rapid.IntRange(0, len(c.docs)-1).Draw(rt, "doc") }
 
-func (c *vfC09Case) drawWin(rt *rapid.T, kinds []string) *vfC09Win {
+func (c *vfC09Case) drawWin(rt *rapid.T, kinds []string, ats ...int) *vfC09Win {
+	if len(ats) == 0 {
+		ats = []int{1, 2, 2, 3, 3, 4, 4, 5, 6, 7, 8, 10, 12}
+	}
 	if rapid.IntRange(0, 9).Draw(rt, "window") >= 6 {
 		return nil
 	}
 	if c.uxk {
 		kinds = append(append([]string{}, kinds...), "extXattr", "extBoth", "extBoth")
 	}
-	w := &vfC09Win{kind: rapid.SampledFrom(kinds).Draw(rt, "winKind"), at: rapid.SampledFrom([]int{1, 2, 2, 3, 3, 4, 4, 5, 6, 7, 8, 10, 12}).Draw(rt, "winAt")}
+	w := &vfC09Win{kind: rapid.SampledFrom(kinds).Draw(rt, "winKind"), at: rapid.SampledFrom(ats).Draw(rt, "winAt")}
 	switch w.kind {
 	case "extXattr":
 		w.x = rapid.IntRange(0, 2).Draw(rt, "winXattr")
@@ -928,18 +1035,26 @@ func (c *vfC09Case) actPut(rt *rapid.T) {
 func (c *vfC09Case) actRead(rt *rapid.T) {
 	d := c.drawDoc(rt)
 	m := c.docs[d]
-	win := c.drawWin(rt, []string{"extSet", "extDel", "deliver", "deliver"})
+	viaRev := rapid.Bool().Draw(rt, "viaRevCache")
+	// an importing read is: 1 read of the document, 2 re-read, 3 sequence allocation, 4 CAS write (5.. retry):
+	// the window action is placed before any of them, the reads included
+	win := c.drawWin(rt, []string{"extSet", "extSet", "extDel", "deliver", "deliver"}, 1, 2, 2, 2, 3, 4, 4, 5, 6, 8)
 	if c.avoidC && win != nil && win.kind == "extDel" {
-		// known finding: an external delete that lands inside an on-demand import's CAS window
+		// known finding: an external delete that lands inside an on-demand import's CAS window; the window is
+		// kept and carries an external set instead
 		c.rec.Excluded(vfC09SigDelInWindow)
-		win = nil
+		win.kind, win.body = "extSet", rapid.IntRange(0, 2).Draw(rt, "winBodyInstead")
 	}
 	if m.dirty() {
 		c.classes["on-demand-import-by-read"] = true
 	}
-	c.gateway("read", d, win, fmt.Sprintf("gwRead(d%d)", d), func(ctx context.Context) vfC09Result {
-		doc, err := c.env.Coll.GetDocument(ctx, m.key, DocUnmarshalAll)
-		return vfC09Result{err: err, readDoc: doc}
+	name := "gwRead"
+	if viaRev {
+		name = "gwReadRev"
+		c.classes["read-through-revision-cache"] = true
+	}
+	c.gateway("read", d, win, fmt.Sprintf("%s(d%d)", name, d), func(ctx context.Context) vfC09Result {
+		return c.doRead(ctx, m.key, viaRev)
 	})
 }
 
@@ -977,7 +1092,7 @@ func (c *vfC09Case) actRewrite(rt *rapid.T) {
 		return // resync only rewrites live documents the gateway knows
 	}
 	c.syncN++
-	fn := fmt.Sprintf(`function(doc, oldDoc, meta) { channel("ch%d"); }`, c.syncN)
+	fn := vfC09SyncFn(c.syncN)
 	if _, err := c.env.Coll.UpdateSyncFun(c.env.Ctx, fn); err != nil {
 		c.harnessErr("UpdateSyncFun: %v", err)
 	}
@@ -1006,8 +1121,7 @@ func (c *vfC09Case) quiesce() {
 			})
 		}
 		c.gateway("read", d, nil, fmt.Sprintf("final-read(d%d)", d), func(ctx context.Context) vfC09Result {
-			doc, err := c.env.Coll.GetDocument(ctx, m.key, DocUnmarshalAll)
-			return vfC09Result{err: err, readDoc: doc}
+			return c.doRead(ctx, m.key, false)
 		})
 		// re-deliver every event ever produced for the document, newest last, then read twice
 		c.mu.Lock()
@@ -1020,10 +1134,11 @@ func (c *vfC09Case) quiesce() {
 				return vfC09Result{}
 			})
 		}
+		// ... once through the revision cache (what revision-based clients are served), once from the bucket
 		for i := 0; i < 2; i++ {
-			c.gateway("read", d, nil, fmt.Sprintf("re-read(d%d)", d), func(ctx context.Context) vfC09Result {
-				doc, err := c.env.Coll.GetDocument(ctx, m.key, DocUnmarshalAll)
-				return vfC09Result{err: err, readDoc: doc}
+			viaRev := i == 0
+			c.gateway("read", d, nil, fmt.Sprintf("re-read(d%d,viaRevCache=%v)", d, viaRev), func(ctx context.Context) vfC09Result {
+				return c.doRead(ctx, m.key, viaRev)
 			})
 		}
 	}
@@ -1071,7 +1186,7 @@ func vfC09NewListener(ctx context.Context, env *vfEnv, label string) *importList
 
 func vfC09Open(t *testing.T, autoImport bool, userXattr bool) (*vfEnv, *vs.Bucket, *vs.DataStore, error) {
 	var w *vs.Bucket
-	cfg := vfDBConfig{AutoImport: autoImport, WrapBucket: func(b base.Bucket) base.Bucket {
+	cfg := vfDBConfig{AutoImport: autoImport, SyncFn: vfC09SyncFn(0), WrapBucket: func(b base.Bucket) base.Bucket {
 		w = vs.Wrap(b)
 		w.SetTraceUnmarked(false)
 		return w
@@ -1148,7 +1263,7 @@ func vfC09Setup(t *testing.T, rec *kit.Rec, rt *rapid.T, nDocs int, userXattr bo
 
 func vfC09Run(t *testing.T, rec *kit.Rec, rt *rapid.T) {
 	nDocs := rapid.IntRange(1, 2).Draw(rt, "docs")
-	uxk := rapid.IntRange(0, 2).Draw(rt, "userXattrKey") == 0
+	uxk := rapid.Bool().Draw(rt, "userXattrKey")
 	c, cleanup, err := vfC09Setup(t, rec, rt, nDocs, uxk)
 	if err != nil {
 		rec.Inconclusive()
@@ -1243,8 +1358,7 @@ var vfC09Repros = []vfC09Repro{
 		// GET x imports {x:1}; immediately before the import's CAS write the other application deletes x
 		m := c.docs[0]
 		c.gateway("read", 0, &vfC09Win{kind: "extDel", atWrite: 1}, "gwRead(d0)", func(ctx context.Context) vfC09Result {
-			doc, err := c.env.Coll.GetDocument(ctx, m.key, DocUnmarshalAll)
-			return vfC09Result{err: err, readDoc: doc}
+			return c.doRead(ctx, m.key, false)
 		})
 	}},
 	{vfC09SigDelExtUpd, "delete-after-external-update", func(c *vfC09Case) {
